@@ -35,6 +35,19 @@ fn main()
 			let a = penne::alpha::parser::parse(penne::alpha::lexer::lex(&src, "m.pn"));
 			println!("ALPHA {}", synterm::module_alpha(&a));
 		}
+		Some("reduce") =>
+		{
+			// pv reduce <ID> <file.json> <signature> [stream]
+			let id = args.get(2).expect("reduce <ID> <file> <signature>");
+			let check = checks.iter().find(|c| c.id() == id).expect("check");
+			let code = reduce_files(
+				check.as_ref(),
+				args.get(3).expect("file"),
+				args.get(4).expect("signature"),
+				args.get(5).map(|s| s.as_str()).unwrap_or("mutated-corpus"),
+			);
+			std::process::exit(code);
+		}
 		Some("stages") =>
 		{
 			// development aid: where does poison sit after each stage?
